@@ -456,19 +456,31 @@ theorem cur_byte_pos_increasing (ws : Nat → Bool) (parse : List Nat → Except
 
 /-! ## JSONLIterator with `rel_seek` (text-mode files of single-byte characters) -/
 
-/-- `_align_to_newline` puts the file ON the first line break at or after the target offset -/
-theorem align_to_newline_spec (c : List Nat) (target p : Nat) (h : alignToNewline c target = some p) :
-    target ≤ p ∧ (∃ x b', c.drop p = x :: b' ∧ bytesBreak x = true) ∧
+/-- `_align_to_newline` puts the file ON the first line break at or after the target offset — or,
+    when there is none and the code stops at the end of the file (`eofOk`), at the end -/
+theorem align_to_newline_spec (eofOk : Bool) (c : List Nat) (target p : Nat) (ht : target ≤ c.length)
+    (h : alignToNewlineE eofOk c target = some p) :
+    target ≤ p ∧
+    ((∃ x b', c.drop p = x :: b' ∧ bytesBreak x = true) ∨ (eofOk = true ∧ p = c.length)) ∧
     ∀ x ∈ (c.drop target).take (p - target), bytesBreak x = false := by
-  unfold alignToNewline at h
+  unfold alignToNewlineE at h
   cases hi : firstBreak (c.drop target) with
-  | none => rw [hi] at h; simp at h
+  | none =>
+    rw [hi] at h
+    cases eofOk with
+    | false => simp at h
+    | true =>
+      simp only [if_true, Option.some.injEq] at h
+      subst h
+      refine ⟨ht, Or.inr ⟨rfl, rfl⟩, ?_⟩
+      intro x hx
+      exact firstBreak_none _ hi x (List.mem_of_mem_take hx)
   | some i =>
     rw [hi] at h
-    simp only [Option.map_some, Option.some.injEq] at h
+    simp only [Option.some.injEq] at h
     subst h
     obtain ⟨⟨x, b', h1, h2⟩, h3⟩ := firstBreak_spec _ i hi
-    refine ⟨by omega, ⟨x, b', ?_, h2⟩, ?_⟩
+    refine ⟨by omega, Or.inl ⟨x, b', ?_, h2⟩, ?_⟩
     · rw [← h1, List.drop_drop]
     · have : target + i - target = i := by omega
       rw [this]; exact h3
@@ -476,29 +488,32 @@ theorem align_to_newline_spec (c : List Nat) (target p : Nat) (h : alignToNewlin
 /-- forward and reverse iteration started with the same `rel_seek` share out the objects of the
     file: what reverse mode yields (read backwards from the aligned position), reversed, followed by
     what forward mode yields (read from there on), is what a plain forward pass yields — nothing is
-    lost or seen twice, for every block size (`ignore_errors=True`) -/
-theorem jsonl_rel_seek_partition (ws : Nat → Bool) (parse : List Nat → Except ε α) (c : List Nat) (target bs : Nat)
-    (hbs : 1 ≤ bs) (f r : List α × Option ε)
-    (hf : jsonlRelSeek ws parse true false bs c target = some f)
-    (hr : jsonlRelSeek ws parse true true bs c target = some r) :
+    lost or seen twice, for every block size (`ignore_errors=True`), whichever way the code treats
+    a target after the last line break -/
+theorem jsonl_rel_seek_partition (eofOk : Bool) (ws : Nat → Bool) (parse : List Nat → Except ε α)
+    (c : List Nat) (target bs : Nat) (hbs : 1 ≤ bs) (ht : target ≤ c.length) (f r : List α × Option ε)
+    (hf : jsonlRelSeekE eofOk ws parse true false bs c target = some f)
+    (hr : jsonlRelSeekE eofOk ws parse true true bs c target = some r) :
     (jsonlForwardT ws parse true c).1 = r.1.reverse ++ f.1 ∧ f.2 = none ∧ r.2 = none := by
-  unfold jsonlRelSeek at hf hr
-  cases hp : alignToNewline c target with
+  unfold jsonlRelSeekE at hf hr
+  cases hp : alignToNewlineE eofOk c target with
   | none => rw [hp] at hf; simp at hf
   | some p =>
     rw [hp] at hf hr
     simp only [Bool.false_eq_true, if_false, if_true, Option.some.injEq] at hf hr
     subst hf hr
-    obtain ⟨_, ⟨x, b', hd, hx⟩, _⟩ := align_to_newline_spec c target p hp
+    obtain ⟨_, hcase, _⟩ := align_to_newline_spec eofOk c target p ht hp
     rw [consume_ignore, consume_ignore, reverse_lines_from_position c p bs hbs,
       List.filterMap_reverse, filterMap_linesOf, jsonl_forward_text ws parse c]
     refine ⟨?_, rfl, rfl⟩
     simp only [List.reverse_reverse]
-    rw [filterMap_rel ws parse _ _ (fileLinesT_rel false (c.drop p))]
-    have hc : c = c.take p ++ x :: b' := by rw [← hd, List.take_append_drop]
-    conv => lhs; rw [hc]
-    rw [filterMap_cut_at_break ws parse _ x b' hx, hd]
-    rfl
+    rcases hcase with ⟨x, b', hd, hx⟩ | ⟨_, rfl⟩
+    · rw [filterMap_rel ws parse _ _ (fileLinesT_rel false (c.drop p))]
+      have hc : c = c.take p ++ x :: b' := by rw [← hd, List.take_append_drop]
+      conv => lhs; rw [hc]
+      rw [filterMap_cut_at_break ws parse _ x b' hx, hd]
+      rfl
+    · simp [fileLinesT]
 
 /-! ## non-vacuity -/
 
@@ -557,12 +572,16 @@ example : reverseIterLines [195, 169, 10, 230, 151, 165] 1 = [[230, 151, 165], [
 example : strictUtf8 [237, 160, 128] = false ∧ validUtf8 [237, 160, 128] = true := by decide
 
 -- rel_seek: "3\n3\r\nx\n3" from offset 2 (inside the second record): aligned ON the CR at offset 3
-example : alignToNewline [51, 10, 51, 13, 10, 120, 10, 51] 2 = some 3 := by decide
-example : jsonlRelSeek pyWs toyParse true false 4096 [51, 10, 51, 13, 10, 120, 10, 51] 2 = some ([3], none) := by decide
-example : jsonlRelSeek pyWs toyParse true true 4096 [51, 10, 51, 13, 10, 120, 10, 51] 2 = some ([3, 3], none) := by decide
+example : alignToNewlineE false [51, 10, 51, 13, 10, 120, 10, 51] 2 = some 3 := by decide
+example : jsonlRelSeekE false pyWs toyParse true false 4096 [51, 10, 51, 13, 10, 120, 10, 51] 2 = some ([3], none) := by decide
+example : jsonlRelSeekE false pyWs toyParse true true 4096 [51, 10, 51, 13, 10, 120, 10, 51] 2 = some ([3, 3], none) := by decide
 example : (jsonlForwardT pyWs toyParse true [51, 10, 51, 13, 10, 120, 10, 51]).1 = [3, 3, 3] := by decide
--- no line break after the target: the code's alignment loop does not end (outside the model)
-example : alignToNewline [51, 10, 51] 2 = none := by decide
+-- no line break after the target: the alignment loop of the code as it is does not end (outside the
+-- model); a code that stops at the end of the file leaves reverse mode everything, forward mode nothing
+example : alignToNewlineE false [51, 10, 51] 2 = none := by decide
+example : alignToNewlineE true [51, 10, 51] 2 = some 3 := by decide
+example : jsonlRelSeekE true pyWs toyParse true true 4096 [51, 10, 51] 2 = some ([3, 3], none) ∧
+    jsonlRelSeekE true pyWs toyParse true false 4096 [51, 10, 51] 2 = some ([], none) := by decide
 
 -- "a<U+2028>é\nb" as UTF-8, read 2 bytes at a time: the text lines are ["a<U+2028>é", "b"]
 example : decodeG false [97, 226, 128, 168, 195, 169, 10, 98] = some [97, 8232, 233, 10, 98] := by decide
